@@ -36,6 +36,58 @@ def char_set(F, adt):
     return frozenset(chr(I.int_leaf(v)) for v in tab.values())
 
 
+# order tests the notation itself implies, as (op, index into the constructor's ranks, index): high/top/bottom
+ALLOWED_ORDER = {
+    ("DoubleClosedRankPairRange", "Pocket"): {("Le", 0, 1), ("Lt", 0, 1)},
+    ("DoubleClosedRankPairRange", "Suited"): {("Lt", 0, 1), ("Lt", 1, 2), ("Le", 1, 2), ("Lt", 0, 2)},
+    ("DoubleClosedRankPairRange", "Ofsuit"): {("Lt", 0, 1), ("Lt", 1, 2), ("Le", 1, 2), ("Lt", 0, 2)},
+    ("BottomClosedRankPairRange", "Suited"): {("Lt", 0, 1)},
+    ("BottomClosedRankPairRange", "Ofsuit"): {("Lt", 0, 1)},
+}
+
+
+def unexplained(key, f, rpos, eqs, kpos):
+    """why fact f (a condition dominating the Ok of shape `key`) is not explained by the notation, or None"""
+    kind = f[0]
+    if kind == "re":
+        return None
+    if kind == "slices":
+        op, a, b = f[1], f[2], f[3]
+        pair = frozenset([a, b])
+        if op == "Eq" and any(pair == frozenset([(x, x + 1), (y, y + 1)]) for x, y in eqs):
+            return None
+        if op == "Ne" and key[1] in ("Suited", "Ofsuit"):
+            # two different ranks: the two rank letters of XY.. differ, or the two kickers of a span differ
+            ok_pairs = [frozenset([(rpos[0], rpos[0] + 1), (rpos[1], rpos[1] + 1)])]
+            if len(rpos) == 3:
+                ok_pairs.append(frozenset([(rpos[1], rpos[1] + 1), (rpos[2], rpos[2] + 1)]))
+            if pair in ok_pairs:
+                return None
+        return f"tokens are additionally required to have bytes {sorted(a)} {op} {sorted(b)}"
+    if kind == "slice-lit":
+        if kpos is not None and f[2] == (kpos, kpos + 1) and f[3] in ("s", "o"):
+            return None
+        return f"tokens are additionally required to have byte {f[2][0]} {f[1]} {f[3]!r}"
+    if kind == "ranks":
+        op, pa, pb = f[1], f[2], f[3]
+        if pa in rpos and pb in rpos:
+            ia, ib = rpos.index(pa), rpos.index(pb)
+            allowed = ALLOWED_ORDER.get(key, set())
+            flip = {"Lt": "Gt", "Le": "Ge", "Gt": "Lt", "Ge": "Le", "Eq": "Eq", "Ne": "Ne"}
+            if (op, ia, ib) in allowed or (flip[op], ib, ia) in allowed:
+                return None
+            if op == "Ne" and key[1] in ("Suited", "Ofsuit"):
+                return None
+        return f"tokens are additionally required to satisfy rank@{pa} {op} rank@{pb}, which standard notation does not demand"
+    if kind == "rel":
+        if key[0] == "SingleCardPair" and f[1] == "Ne" and all(t[0] == "call" and t[1].endswith("Index<usize>>::index") for t in (f[2], f[3])):
+            return None   # the two cards of a card-pair token must differ (C10)
+        return f"an extra condition {f[1]}({P.show(f[2])[:30]}, {P.show(f[3])[:30]}) guards this shape"
+    if kind == "other":
+        return f"an extra condition `{f[1]}` guards this shape"
+    return None
+
+
 def rule_layout(ctx, F, TM):
     rule = "C05.layout"
     ctx.rule(rule, "per token shape the regex layout, the slice offsets feeding each field and the weight offset agree with standard notation")
@@ -87,6 +139,12 @@ def rule_layout(ctx, F, TM):
                 problems.append(f"{st.pair_variant} is not selected by the kind letter at byte {kpos} ({lits})")
         if st.prob_from != woff:
             problems.append(f"the weight is parsed from s[{st.prob_from}..], the shape ends at byte {woff}")
+        # acceptance: every condition on the way to this Ok must be one the notation explains, otherwise some
+        # well-formed tokens of the shape are rejected (and silently dropped by the range parser)
+        for f in st.facts:
+            why = unexplained(key, f, rpos, eqs, kpos)
+            if why:
+                problems.append(why)
         if problems:
             ctx.violation(rule, f"{fn.path}|{tag}", f"{tag}: " + "; ".join(problems), fn=fn.path, file=fn.file, line=st.line,
                           construct=f"parser branch returning {tag}")
@@ -276,6 +334,9 @@ def rule_range_parser(ctx, F):
         if not (base[0] == "call" and base[1].rsplit("::", 1)[-1] == "replace" and P.strip(base[2][0]) == ("param", 1)
                 and P.strip(base[2][1]) in (("str", " "), ("char", 32)) and P.strip(base[2][2]) == ("str", "")):
             problems.append(f"the split text is not `s.replace(\" \", \"\")`: {P.show(base)[:80]}")
+    parse_calls = [bi for bi, t_ in fn.calls() if I.callee_path(t_) == f"<{TOKEN} as std::str::FromStr>::from_str" and bi in outer.body]
+    if len(parse_calls) != 1 or not L.in_every_iteration(fn, outer, parse_calls[0]):
+        problems.append("a piece of the text can be skipped before it is parsed as a token (a later duplicate/overlapping token would not apply)")
     # inner: token parse of the item, expansion loop, insert into the map that is returned
     ins = [(bi, t_) for bi, t_ in fn.calls() if t_["callee"].get("name") == "insert" and I.callee_path(t_).startswith("std::collections::HashMap") and bi in fn.cfg.reachable]
     if len(ins) != 1:
